@@ -3,138 +3,19 @@
 package main
 
 import (
-	"fmt"
-	"sort"
 	"time"
 
-	"gopkg.in/typ.v4/sync2"
 	"verif/lib/ev"
-	"verif/lib/fp"
+	"verif/lib/maph"
 	"verif/lib/seqmc"
 )
-
-type h struct {
-	keys  int
-	m     *sync2.Map[int, int]
-	model map[int]int
-}
-
-func (x *h) Ops() []seqmc.Op {
-	var ops []seqmc.Op
-	for k := 0; k < x.keys; k++ {
-		ops = append(ops, seqmc.Op{Name: "Load", A: k}, seqmc.Op{Name: "LoadAndDelete", A: k}, seqmc.Op{Name: "Delete", A: k})
-		for v := 1; v <= 2; v++ {
-			ops = append(ops, seqmc.Op{Name: "Store", A: k, B: v}, seqmc.Op{Name: "LoadOrStore", A: k, B: v})
-		}
-	}
-	ops = append(ops, seqmc.Op{Name: "Load", A: x.keys}) // a key that is never stored: pure misses
-	ops = append(ops, seqmc.Op{Name: "Range"}, seqmc.Op{Name: "Range", A: 1})
-	return ops
-}
-
-func (x *h) Apply(op seqmc.Op) *seqmc.Fail {
-	mv, mok := x.model[op.A]
-	switch op.Name {
-	case "Load":
-		v, ok := x.m.Load(op.A)
-		if ok != mok || v != mv {
-			return seqmc.Failf("Load", "Load(%d) = (%d,%v), map has (%d,%v)", op.A, v, ok, mv, mok)
-		}
-	case "Store":
-		x.m.Store(op.A, op.B)
-		x.model[op.A] = op.B
-	case "LoadOrStore":
-		v, loaded := x.m.LoadOrStore(op.A, op.B)
-		want := op.B
-		if mok {
-			want = mv
-		} else {
-			x.model[op.A] = op.B
-		}
-		if loaded != mok || v != want {
-			return seqmc.Failf("LoadOrStore", "LoadOrStore(%d,%d) = (%d,%v), want (%d,%v)", op.A, op.B, v, loaded, want, mok)
-		}
-	case "LoadAndDelete":
-		v, loaded := x.m.LoadAndDelete(op.A)
-		delete(x.model, op.A)
-		if loaded != mok || v != mv {
-			return seqmc.Failf("LoadAndDelete", "LoadAndDelete(%d) = (%d,%v), map had (%d,%v)", op.A, v, loaded, mv, mok)
-		}
-	case "Delete":
-		x.m.Delete(op.A)
-		delete(x.model, op.A)
-	case "Range":
-		seen := map[int]int{}
-		calls := 0
-		var dup *seqmc.Fail
-		x.m.Range(func(k, v int) bool {
-			calls++
-			if _, ok := seen[k]; ok {
-				dup = seqmc.Failf("Range:twice", "Range visited key %d twice", k)
-			}
-			seen[k] = v
-			return op.A == 0 || calls < op.A
-		})
-		if dup != nil {
-			return dup
-		}
-		for k, v := range seen {
-			if w, ok := x.model[k]; !ok || w != v {
-				return seqmc.Failf("Range:value", "Range visited (%d,%d), map has %v", k, v, x.model)
-			}
-		}
-		if op.A == 0 && len(seen) != len(x.model) {
-			return seqmc.Failf("Range:missed", "Range visited %v, map has %v", seen, x.model)
-		}
-		if op.A > 0 {
-			want := op.A
-			if len(x.model) < want {
-				want = len(x.model)
-			}
-			if calls != want {
-				return seqmc.Failf("Range:stop", "Range told to stop after %d calls made %d calls on %d keys", op.A, calls, len(x.model))
-			}
-		}
-	}
-	return nil
-}
-
-func (x *h) Key() string {
-	var ks []int
-	for k := range x.model {
-		ks = append(ks, k)
-	}
-	sort.Ints(ks)
-	s := fp.Of(x.m) + "|"
-	for _, k := range ks {
-		s += fmt.Sprintf("%d=%d,", k, x.model[k])
-	}
-	return s
-}
-
-func (x *h) Observe() *seqmc.Fail {
-	for k := 0; k <= x.keys; k++ {
-		if f := x.Apply(seqmc.Op{Name: "Load", A: k}); f != nil {
-			return f
-		}
-	}
-	if f := x.Apply(seqmc.Op{Name: "Range"}); f != nil {
-		return f
-	}
-	for k := 0; k <= x.keys; k++ {
-		if f := x.Apply(seqmc.Op{Name: "Load", A: k}); f != nil {
-			return f
-		}
-	}
-	return nil
-}
 
 func main() {
 	r := ev.Start("C04")
 	r.SetDeadline(ev.Pick(r, 40*time.Second, 900*time.Second))
 	keys := ev.Pick(r, 2, 3)
 	res := seqmc.Explore(r, seqmc.Config{Name: "map-sequential", New: func() seqmc.Sys {
-		return &h{keys: keys, m: new(sync2.Map[int, int]), model: map[int]int{}}
+		return maph.New(keys)
 	}})
 	if !res.Exhaustive {
 		r.MarkCapped()
